@@ -23,6 +23,7 @@ type Ctx struct {
 
 	Overlay map[string][]byte
 	Fold    *FoldSet // registered helpers (see roles.go)
+	Sub     *SubCache // reports of included properties, shared along include chains
 	conn    map[string]*ana.Prog
 	roots   *Roots
 }
@@ -258,24 +259,39 @@ func sprintf(f string, a ...interface{}) string { return fmt.Sprintf(f, a...) }
 // "<current>.<label>" with the key "<original rule>:<original key>".  Violations that are listed as
 // open known findings of the other property are not adopted (that property reports them).
 func (c *Ctx) include(label, other string, keep func(rule string) bool) {
+	c.includeKeys(label, other, keep, nil)
+}
+
+// includeKeys is include restricted to the obligations whose key satisfies keepKey (nil: all).
+func (c *Ctx) includeKeys(label, other string, keep func(rule string) bool, keepKey func(rule, key string) bool) {
 	f, ok := Registry[other]
 	if !ok {
 		return
 	}
-	sub := report.New(c.R.Dir, other, c.Tier, c.R.Seed)
 	if c.Fold == nil {
 		c.Fold = &FoldSet{M: map[*ssa.Function]bool{}}
 	}
-	sc := &Ctx{R: sub, P: c.P, Tier: c.Tier, Overlay: c.Overlay, conn: c.conn, roots: c.roots, Fold: c.Fold}
-	f(sc)
-	if c.conn == nil {
-		c.conn = sc.conn
+	if c.Sub == nil {
+		c.Sub = &SubCache{M: map[string]*report.Report{}}
+	}
+	sub := c.Sub.M[other]
+	if sub == nil {
+		sub = report.New(c.R.Dir, other, c.Tier, c.R.Seed)
+		c.Sub.M[other] = sub
+		sc := &Ctx{R: sub, P: c.P, Tier: c.Tier, Overlay: c.Overlay, conn: c.conn, roots: c.roots, Fold: c.Fold, Sub: c.Sub}
+		f(sc)
+		if c.conn == nil {
+			c.conn = sc.conn
+		}
 	}
 	rule := c.R.Property + "." + label
 	n := 0
 	for _, o := range sub.Obls {
 		base := strings.TrimSuffix(o.Rule, ".undecided")
 		if !keep(base) || o.Status == report.Advisory {
+			continue
+		}
+		if keepKey != nil && !keepKey(base, o.Key) && !(strings.HasSuffix(o.Rule, ".undecided") && o.Status == report.Violation) {
 			continue
 		}
 		if o.Status == report.Violation && sub.IsOpenKnown(o.Rule, o.Key) {
@@ -293,6 +309,9 @@ func (c *Ctx) include(label, other string, keep func(rule string) bool) {
 		c.R.InfraErr = sub.InfraErr
 	}
 	// vacuity of the included rules
+	if keepKey != nil && n == 0 {
+		c.R.Bad(rule+".undecided", other+":selection", "-", "none of the obligations of "+other+" selected for "+rule+" exists any more")
+	}
 	for r2, min := range sub.Minimum {
 		if keep(r2) && sub.Counts[r2] < min {
 			c.R.Bad(rule+".undecided", r2+":instances", "-", sprintf("included rule %s matched %d instance(s), minimum %d", r2, sub.Counts[r2], min))
@@ -310,3 +329,6 @@ func rulesIn(list ...string) func(string) bool {
 		return false
 	}
 }
+
+// SubCache memoises the reports of included properties within one pass.
+type SubCache struct{ M map[string]*report.Report }
